@@ -8,9 +8,10 @@ TRUSTED = [
     "translate/gridcopy.py (EclipseGrid.cpp: what resetACTNUM()/resetACTNUM(const int*) do with active_volume, what EclipseGrid(src, zcorn, actnum) does with m_input_zcorn, shape of activeVolume/getCellVolume/save -> Gen/GridCopy.lean), cross-checked by the correspondence (grid.seq: operation sequences on one object)",
     "harness/grid.cpp + lib/vlib.py differ; model driver (compiled Lean, IEEE double, same operation order as the C++)",
     "modelled, not verified: COORD/ZCORN generation and fixupZCORN are modelled in gather form (value of entry idx; per-line running clamp) against the scatter/push_back/in-place loops of the C++ — tied by comparing the complete arrays (and cells_adjusted) bit for bit",
-    "object model (Model/GridState.lean): members active_volume, m_actnum + maps, m_coord/m_zcorn, zcorn_fixed, m_input_coord/m_input_zcorn; operations activeVolume, resetACTNUM(), resetACTNUM(mask), EclipseGrid(src, zcorn, actnum), EclipseGrid(src, actnum), save, EclipseGrid(file); other mutators (MINPV/PINCH setters, aquifer cells, LGRs) are outside",
+    "object model (Model/GridState.lean): members active_volume, m_actnum + maps, m_coord/m_zcorn, zcorn_fixed, m_input_coord/m_input_zcorn; operations activeVolume, resetACTNUM(), resetACTNUM(mask), EclipseGrid(src, zcorn, actnum), EclipseGrid(src, actnum), save, EclipseGrid(file); MINPV state (mode, vector, setMINPVV, cellActiveAfterMINPV) is a separate record (Model/GridExt.lean) whose mask feeds resetACTNUM(mask); aquifer cells and LGRs are outside",
+    "modelled, not verified (third round, Model/GridExt.lean): RADIAL grid construction, calculateCylindricalCellVol, apply_GRIDUNIT and MapAxes are hand-written models tied by bit-exact correspondence only (gridx.radial: complete COORD/ZCORN/volumes of parsed RADIAL decks incl. GRIDUNIT; gridx.gridunit; gridx.mapaxes; gridx.minpv); cos, sin, M_PI are libm/constant parameters (same libm in the compiled Lean driver and in the C++), the two std::hypot results of MapAxes::init are passed in by the harness (libm hypot is not correctly rounded, so it cannot be recomputed)",
     "observed only: independence of OMP_NUM_THREADS (1, 4, 16 compared bit for bit on the real code); Float ~ field (theorems are over a field of characteristic 0); float narrowing in EGRID files; formatted EGRID (property-mode round trip only, incl. NNC lists through EclIO::EGrid::get_nnc_ijk)",
-    "outside the model: MINPV/PINCH, radial/spider grids, LGRs, numerical aquifer cells, GRIDUNIT rescaling of decks",
+    "outside the model: PINCH/MINPV deactivation and pinch-out NNCs (not in opm-common; only the rule, the options and the setters are), SPIDER-specific behaviour beyond the shared arrays, LGR index maps, numerical aquifer cells, createTOPSVector tolerance logic, GDFILE input; PINCH option parsing is property-mode only",
 ]
 
 
@@ -18,6 +19,7 @@ def run(ctx):
     ctx.assumptions += [
         "doubles cross the protocol as IEEE bit patterns; x86-64 without FMA contraction (volumes, centres, depths, dims compared bit for bit)",
         "ACTNUM > 0 means active (as in resetACTNUM); no AQUNUM cells",
+        "radial grids: INRAD >= 0, DRV >= 0, DTHETAV >= 0 with total <= 360 for the additivity / annulus theorems (the code throws above 360)",
         "nz >= 1 for DX/DY/DZ/TOPS input (the C++ indexes layer nz-1)",
     ]
     ctx.stage_translate(["cellvol", "eclio", "gridcopy"])
